@@ -405,6 +405,10 @@ class GraphBasedModelConstructor:
             # logger.debug(">>> Considering path " + str(path))
             intron_path = path[1:-1]
             if not intron_path: continue
+            if any(intron_path[i][1] + 1 >= intron_path[i + 1][0] for i in range(len(intron_path) - 1)):
+                # introns substituted during graph simplification may overlap their neighbours in the path: no exon is left
+                # between them, and the intron they would merge into is not supported by any read
+                continue
             transcript_range = (path[0][1], path[-1][1])
             novel_exons = get_exons(transcript_range, list(intron_path))
             count = self.path_storage.paths[path]
